@@ -6,6 +6,10 @@ lvdriver: line-protocol driver of the Lean twin.
                                 the twin from that path and prints its records
   lvdriver step                 stdin: `<cap> <path json>` lines; prints `S <json>` of `Path.step`
                                 or `NONE`
+  lvdriver rc11 strong|doc [maxStates maxGraphs]
+                                stdin: litmus programs; prints the RC11 outcomes computed by the
+                                total, verified enumerator `RC11.exploreV` (`Props/OracleRC11.lean`)
+  lvdriver rc11-old …           the same with the original `partial def RC11.explore` (cross-check)
 -/
 import LoomVerif.Model.Check
 import LoomVerif.Model.Render
@@ -14,6 +18,7 @@ import LoomVerif.Spec.StdAtomic
 import LoomVerif.Oracle.SCEnum
 import LoomVerif.Oracle.SCEnumV
 import LoomVerif.Oracle.RC11Enum
+import LoomVerif.Oracle.RC11EnumV
 
 open LoomVerif
 
@@ -137,22 +142,25 @@ partial def scMain (maxStates : Nat) : IO Unit := do
   scMain maxStates
 
 /-- RC11 outcomes: one litmus program per line; `strong` = SeqCst accesses really SC -/
-partial def rc11Main (strong : Bool) (maxStates maxGraphs : Nat) : IO Unit := do
+partial def rc11Main (verified : Bool) (strong : Bool) (maxStates maxGraphs : Nat) : IO Unit := do
   let stdin ← IO.getStdin
   let line ← stdin.getLine
   if line.isEmpty then return
   let line := line.trimAscii.toString
-  if line.isEmpty then rc11Main strong maxStates maxGraphs else
+  if line.isEmpty then rc11Main verified strong maxStates maxGraphs else
   IO.println s!"PROG {line}"
   match Prog.parse line with
   | some prog =>
-    let r := RC11.explore prog strong maxStates maxGraphs
+    -- `rc11`: the total, verified enumerator (`Props/OracleRC11.lean`); `rc11-old`: the original
+    -- `partial def`, kept for cross-checking
+    let r := if verified then RC11.exploreV prog strong maxStates maxGraphs
+             else RC11.explore prog strong maxStates maxGraphs
     for o in r.outcomes do IO.println s!"OUT {o}"
     let st := if r.unsupported then "unsupported" else if r.capped then "capped" else "ok"
     IO.println s!"DONE {r.candidates} {r.graphs} {r.consistent} {st}"
   | none => IO.println "DONE 0 0 0 parseError"
   (← IO.getStdout).flush
-  rc11Main strong maxStates maxGraphs
+  rc11Main verified strong maxStates maxGraphs
 
 def parseOpts : List String → Opts → Opts
   | [], o => o
@@ -167,10 +175,14 @@ def main (args : List String) : IO Unit := do
   | "replay" :: rest => replayMain (parseOpts rest {}).full none
   | ["step"] => stepMain
   | ["c12"] => c12Main
-  | ["rc11", "strong"] => rc11Main true 30000 6000
-  | ["rc11", "doc"] => rc11Main false 30000 6000
-  | ["rc11", "strong", st, gr] => rc11Main true (st.toNat?.getD 30000) (gr.toNat?.getD 6000)
-  | ["rc11", "doc", st, gr] => rc11Main false (st.toNat?.getD 30000) (gr.toNat?.getD 6000)
+  | ["rc11", "strong"] => rc11Main true true 30000 6000
+  | ["rc11", "doc"] => rc11Main true false 30000 6000
+  | ["rc11", "strong", st, gr] => rc11Main true true (st.toNat?.getD 30000) (gr.toNat?.getD 6000)
+  | ["rc11", "doc", st, gr] => rc11Main true false (st.toNat?.getD 30000) (gr.toNat?.getD 6000)
+  | ["rc11-old", "strong"] => rc11Main false true 30000 6000
+  | ["rc11-old", "doc"] => rc11Main false false 30000 6000
+  | ["rc11-old", "strong", st, gr] => rc11Main false true (st.toNat?.getD 30000) (gr.toNat?.getD 6000)
+  | ["rc11-old", "doc", st, gr] => rc11Main false false (st.toNat?.getD 30000) (gr.toNat?.getD 6000)
   | ["sc"] => scMain 200000
   | ["sc", n] => scMain (n.toNat?.getD 200000)
   | _ => IO.eprintln "usage: lvdriver explore [--full] [--starts] [--max n] | replay [--full] | step"
